@@ -28,6 +28,13 @@ fn chain_case(rng: &mut Rng, rec: &mut Rec) {
     if needs_body(method) && rng.chance(2, 3) {
         cfg.orig.push(("content-length".into(), b"1234".to_vec()));
     }
+    if !needs_body(method) && rng.chance(1, 4) {
+        // a body forced onto a body-less method: its Content-Length is just as stale after a redirect,
+        // and this method survives every redirect status
+        cfg.despite = true;
+        cfg.orig.push(("content-length".into(), b"1234".to_vec()));
+        rec.cov("original/despite-method-with-content-length");
+    }
     let policy = if rng.chance(1, 2) { RedirectAuthHeaders::Never } else { RedirectAuthHeaders::SameHost };
     let original = split_uri(&cfg.uri);
     let hops = rng.usize_in(1, 4);
@@ -47,7 +54,10 @@ fn chain_case(rng: &mut Rng, rec: &mut Rec) {
         rec.call();
         let (head, followed) = match follow_one_head(flow, &cfg, &eff, &original, &hop, policy) {
             Ok(v) => v,
-            Err(e) => return rec.fail("C13/hop-failed", format!("hop {} ({} {:?}): {}", hop_i, hop.status, loc, e)),
+            Err(e) => {
+                let sig = if hop_i > 0 && e.contains("MethodForbidsBody") { "C13/content-length-leaked" } else { "C13/hop-failed" };
+                return rec.fail(sig, format!("hop {} ({} {:?}): {}", hop_i, hop.status, loc, e));
+            }
         };
         // the head of the request that was just sent (hop_i >= 1 means it was created by a redirect)
         if hop_i > 0 && !check_head(&head, &cfg, &eff, policy, &original, hop_i, rec) {
@@ -165,6 +175,7 @@ impl Property for P {
         }
         v.push(("hop2/same-host/upgrade/same-host-policy".into(), 3));
         v.push(("hop1/same-host/same-scheme/never".into(), 20));
+        v.push(("original/despite-method-with-content-length".into(), 100));
         v
     }
 }
